@@ -13,7 +13,9 @@
    ser_value_text  crates/toml/src/ser.rs     `impl Serializer for ValueSerializer` (toml::ser::ValueSerializer,
                    the text of a single value): like toml's document Serializer it looks at the ROOT value
                    itself (struct = serialize_map, so a root Datetime is written as { FIELD = "text" };
-                   a struct variant is refused by name) but does not ask for a table.
+                   a struct variant is refused by name) but does not ask for a table.  A tuple variant at
+                   the root goes to toml_edit's ValueSerializer::serialize_tuple_variant ({ T = [..] }) since
+                   the repair of C13-valueser-root-tuple-variant (before: serialize_seq, a bare array).
 
    Text-level facts (which text a tree is printed as, which tree a text parses to) are C01-C03/C06. *)
 From TV Require Import Base.Prelude Model.Datetime Model.DatetimeStd Spec.SerdeData Model.Ser Model.De.
@@ -52,7 +54,6 @@ Definition ser_value_text (t : ty) (v : sval) : result tomlval :=
     pick (fun nv =>
             match snd nv with
             | VStruct _ => Err (EUnsupportedType (Some n))
-            | VTuple ts => match p with SSeq xs => rmap VArr (zipM ser_value ts xs) | _ => Err EBadCase end
             | _ => ser_value t v
             end) (Err EBadCase) vs i
   | _, _ => ser_value t v
